@@ -207,6 +207,8 @@ class ChunkFile:
 
 
 def make_value(ctype, vid, big):
+    if big == 'mixed':
+        big = vid % 2 == 0       # serialised lengths differ from one computation to the next
     pad = 9000 if big else 8
     if ctype == 'json':
         return {'id': vid, 'pad': 'x' * pad}
@@ -292,7 +294,7 @@ class SchedEngine(Engine):
             if writers and r.random() < 0.7:
                 threads[pol['writer']][0] = {'op': 'goc', 'key': 'k0', 'force': True}
         return {'engine': 'schedsim', 'ctype': r.choice(['json', 'json', 'npy', 'df']), 'threads': threads, 'policy': pol, 'choices': None,
-                'chunks': r.choice([1, 2, 3]), 'big': r.random() < 0.3, 'pre': r.random() < 0.6, 'own_cache': r.random() < 0.8}
+                'chunks': r.choice([1, 2, 3]), 'big': r.choice([False, False, True, 'mixed', 'mixed']), 'pre': r.random() < 0.6, 'own_cache': r.random() < 0.8}
 
     # ------------------------------------------------------------------------------------------ execution
     def execute(self, scn, ctx):
@@ -305,6 +307,7 @@ class SchedEngine(Engine):
         cdir = os.path.join(d, 'c')
         calls = []
         comps = []
+        held = []
         counter = [1000]
         files = ctx['files']
         real_open = builtins.open
@@ -375,6 +378,7 @@ class SchedEngine(Engine):
                         else:
                             v = cache.get_or_compute(call['key'], computer, force=call.get('force', False))
                         rec['ret'] = NOVAL if v is tc.NO_VALUE else value_id(ctype, v)
+                        held.append((rec, v))
                     except BaseException as e:
                         rec['exc'] = [type(e).__name__, str(e)[:160]]
                     rec['return'] = sched.step
@@ -411,6 +415,10 @@ class SchedEngine(Engine):
             builtins.open = real_open
             io.open = real_io_open
             time.sleep = real_sleep
+        # a value handed to a caller stays what it was, whatever other callers write afterwards
+        for rec, v in held:
+            if v is not tc.NO_VALUE:
+                rec['ret_end'] = value_id(ctype, v)
         # quiescence: fresh cache object reads every key
         final = {}
         try:
@@ -453,6 +461,8 @@ class SchedEngine(Engine):
             if isinstance(r, dict):
                 d('I-complete', f'{c["op"]} returned a value that is not the complete result of any computation', got=r, call=[c['thread'], c['idx']])
                 continue
+            if 'ret_end' in c and c['ret_end'] != r:
+                d('I-complete', f'the value returned by {c["op"]} changed under the caller after another caller wrote the entry', at_return=r, at_quiescence=c['ret_end'])
             comp = comps.get(r)
             if comp is None or comp['key'] != c['key']:
                 d('I-complete', 'returned value was not produced by a computation for that key', got=r, key=c['key'])
